@@ -10,7 +10,8 @@ use bytes::Bytes;
 use futures::StreamExt;
 use iggy::client::*;
 use iggy::clients::client::IggyClient;
-use iggy::clients::consumer::{AutoCommit, AutoCommitWhen, IggyConsumer};
+use iggy::clients::consumer::{AutoCommit, AutoCommitAfter, AutoCommitWhen, IggyConsumer, ReceivedMessage};
+use iggy::consumer_ext::{IggyConsumerMessageExt, MessageConsumer};
 use iggy::clients::producer::IggyProducer;
 use iggy::compression::compression_algorithm::CompressionAlgorithm;
 use iggy::consumer::Consumer;
@@ -104,11 +105,13 @@ fn parse_part(s: &str) -> Option<Partitioning> {
 struct Rec {
     events: Arc<Mutex<Vec<Value>>>,
     polls_since_yield: Arc<AtomicU64>,
+    incarnations: Arc<AtomicU64>,
 }
 
 impl Rec {
     fn client(&self, inner: TcpClient, tag: &str, decrypt: &Option<Arc<EncryptorKind>>) -> RecClient {
-        RecClient { inner, events: self.events.clone(), polls_since_yield: self.polls_since_yield.clone(), tag: tag.to_string(), decrypt: decrypt.clone() }
+        let inc = if tag == "consumer" { self.incarnations.fetch_add(1, Ordering::SeqCst) + 1 } else { 0 };
+        RecClient { inner, events: self.events.clone(), polls_since_yield: self.polls_since_yield.clone(), tag: tag.to_string(), inc, decrypt: decrypt.clone() }
     }
     fn push(&self, v: Value) {
         self.events.lock().unwrap().push(v);
@@ -168,6 +171,30 @@ fn significant(events: &Arc<Mutex<Vec<Value>>>) -> usize {
     filter_noise(events.lock().unwrap().clone()).len()
 }
 
+/// The application side of `consume_messages()` (the After(...) commit modes only work through it): records what it is handed
+/// and asks for the shutdown once it has had `limit` messages.
+struct ExtSink {
+    events: Arc<Mutex<Vec<Value>>>,
+    polls_since_yield: Arc<AtomicU64>,
+    count: AtomicU64,
+    limit: u64,
+    shutdown: Arc<Mutex<Option<tokio::sync::oneshot::Sender<()>>>>,
+}
+
+impl MessageConsumer for ExtSink {
+    async fn consume(&self, rm: ReceivedMessage) -> Result<(), iggy::error::IggyError> {
+        self.polls_since_yield.store(0, Ordering::SeqCst);
+        self.events.lock().unwrap().push(json!({"ev":"yield","p":rm.partition_id,"o":rm.message.offset,"m":parse_m(&rm.message.payload)}));
+        let c = self.count.fetch_add(1, Ordering::SeqCst) + 1;
+        if self.limit > 0 && c >= self.limit {
+            if let Some(tx) = self.shutdown.lock().unwrap().take() {
+                let _ = tx.send(());
+            }
+        }
+        Ok(())
+    }
+}
+
 struct LiveConsumer {
     consumer: IggyConsumer,
     shared: IggySharedMut<Box<dyn Client>>,
@@ -205,7 +232,7 @@ impl SdkLens {
         } else {
             None
         };
-        let rec = Rec { events: Arc::new(Mutex::new(vec![])), polls_since_yield: Arc::new(AtomicU64::new(0)) };
+        let rec = Rec { events: Arc::new(Mutex::new(vec![])), polls_since_yield: Arc::new(AtomicU64::new(0)), incarnations: Arc::new(AtomicU64::new(0)) };
         out.emit(&json!({"ev":"reset","sc":idx,"id":scn.id,"partitions":scn.partitions,"encrypt":scn.encrypt,
             "producer":{"batch":scn.producer.batch,"interval_us":scn.producer.interval_us,"part":scn.producer.part,"retries":scn.producer.retries},
             "consumer":{"kind":scn.consumer.kind,"partition":scn.consumer.partition,"strategy":scn.consumer.strategy,"batch":scn.consumer.batch,
@@ -281,18 +308,91 @@ impl SdkLens {
                     let obs = self.observe(&admin, scn, &encryptor).await?;
                     out.emit(&json!({"ev":"call_end","sc":idx,"i":i,"call":call,"res":res_of(&r),"obs":obs}));
                 }
+                "consume" if scn.consumer.mode.contains("after") => {
+                    // consume_messages() takes the consumer by value: every consume step is one incarnation
+                    let n = step["n"].as_u64().unwrap_or(0);
+                    if let Some(lc) = live.take() {
+                        drop(lc);
+                    }
+                    let lc = self.make_consumer(scn, tcp, &rec, &encryptor).await?;
+                    quiesce(&rec).await;
+                    i += 1;
+                    let obs = self.observe(&admin, scn, &encryptor).await?;
+                    out.emit(&json!({"ev":"created","sc":idx,"i":i,"inc":rec.incarnations.load(Ordering::SeqCst),"obs":obs}));
+                    for e in rec.drain() {
+                        i += 1;
+                        out.emit(&with(e, idx, i));
+                    }
+                    let (tx, rx) = tokio::sync::oneshot::channel::<()>();
+                    let shutdown = Arc::new(Mutex::new(Some(tx)));
+                    let sink: &'static ExtSink = Box::leak(Box::new(ExtSink { events: rec.events.clone(), polls_since_yield: rec.polls_since_yield.clone(),
+                        count: AtomicU64::new(0), limit: n, shutdown: shutdown.clone() }));
+                    rec.polls_since_yield.store(0, Ordering::SeqCst);
+                    let idle_flag = Arc::new(std::sync::atomic::AtomicBool::new(false));
+                    let idle_polls = 2 * scn.partitions as u64 + 3;
+                    let min_idle = if scn.consumer.mode.starts_with("interval") { Duration::from_millis(3 * scn.consumer.interval_ms.max(1)) } else { Duration::ZERO };
+                    let watcher = {
+                        let (psy, shutdown, idle_flag) = (rec.polls_since_yield.clone(), shutdown.clone(), idle_flag.clone());
+                        tokio::spawn(async move {
+                            let mut t0 = tokio::time::Instant::now();
+                            let mut seen = 0u64;
+                            loop {
+                                let v = psy.load(Ordering::SeqCst);
+                                if v < seen {
+                                    t0 = tokio::time::Instant::now(); // something was yielded meanwhile
+                                }
+                                seen = v;
+                                if v >= 2 * idle_polls && t0.elapsed() >= min_idle {
+                                    if let Some(tx) = shutdown.lock().unwrap().take() {
+                                        idle_flag.store(true, Ordering::SeqCst);
+                                        let _ = tx.send(());
+                                    }
+                                    return;
+                                }
+                                if shutdown.lock().unwrap().is_none() {
+                                    return;
+                                }
+                                tokio::time::sleep(Duration::from_micros(300)).await;
+                            }
+                        })
+                    };
+                    let LiveConsumer { consumer, shared } = lc;
+                    let r = consumer.consume_messages(sink, rx).await;
+                    let _ = watcher.await;
+                    let error = match &r { Ok(()) => String::new(), Err(e) => crate::util::err_class(e) };
+                    quiesce(&rec).await;
+                    {
+                        let c = shared.read().await;
+                        if scn.consumer.kind == "group" {
+                            let _ = c.leave_consumer_group(&Identifier::numeric(1).unwrap(), &Identifier::numeric(1).unwrap(), &Identifier::named("vgroup").unwrap()).await;
+                        }
+                        let _ = c.disconnect().await;
+                    }
+                    drop(shared);
+                    quiesce(&rec).await;
+                    for e in rec.drain() {
+                        i += 1;
+                        out.emit(&with(e, idx, i));
+                    }
+                    i += 1;
+                    let obs = self.observe(&admin, scn, &encryptor).await?;
+                    out.emit(&json!({"ev":"consume_end","sc":idx,"i":i,"n":n,"yielded":sink.count.load(Ordering::SeqCst),"idle":idle_flag.load(Ordering::SeqCst),
+                        "error":error,"ext":true,"obs":obs}));
+                    i += 1;
+                    out.emit(&json!({"ev":"dropped","sc":idx,"i":i,"obs":obs}));
+                }
                 "consume" => {
                     let n = step["n"].as_u64().unwrap_or(0);
                     if live.is_none() {
                         live = Some(self.make_consumer(scn, tcp, &rec, &encryptor).await?);
                         quiesce(&rec).await;
+                        i += 1;
+                        let obs = self.observe(&admin, scn, &encryptor).await?;
+                        out.emit(&json!({"ev":"created","sc":idx,"i":i,"inc":rec.incarnations.load(Ordering::SeqCst),"obs":obs}));
                         for e in rec.drain() {
                             i += 1;
                             out.emit(&with(e, idx, i));
                         }
-                        i += 1;
-                        let obs = self.observe(&admin, scn, &encryptor).await?;
-                        out.emit(&json!({"ev":"created","sc":idx,"i":i,"obs":obs}));
                     }
                     let lc = live.as_mut().unwrap();
                     let mut yielded = 0u64;
@@ -411,6 +511,12 @@ impl SdkLens {
             "interval_or_each" => AutoCommit::IntervalOrWhen(d, AutoCommitWhen::ConsumingEachMessage),
             "interval_or_all" => AutoCommit::IntervalOrWhen(d, AutoCommitWhen::ConsumingAllMessages),
             "interval_or_nth" => AutoCommit::IntervalOrWhen(d, AutoCommitWhen::ConsumingEveryNthMessage(nth)),
+            "after_each" => AutoCommit::After(AutoCommitAfter::ConsumingEachMessage),
+            "after_all" => AutoCommit::After(AutoCommitAfter::ConsumingAllMessages),
+            "after_nth" => AutoCommit::After(AutoCommitAfter::ConsumingEveryNthMessage(nth)),
+            "interval_or_after_each" => AutoCommit::IntervalOrAfter(d, AutoCommitAfter::ConsumingEachMessage),
+            "interval_or_after_all" => AutoCommit::IntervalOrAfter(d, AutoCommitAfter::ConsumingAllMessages),
+            "interval_or_after_nth" => AutoCommit::IntervalOrAfter(d, AutoCommitAfter::ConsumingEveryNthMessage(nth)),
             m => return Err(format!("unknown mode {m}")),
         };
         b = b.polling_strategy(strategy).batch_size(c.batch.max(1)).auto_commit(ac);
